@@ -76,3 +76,32 @@ PROPS["C13"] = {
         {"func": "verifH_C13_readfile", "pkg": "iso7816", "params": {"chunks": 3}, "params_thorough": {"chunks": [1, 2, 3, 4]}, "unwind": 12, "timeout_ms": 90000, "expect_reach": ["data", "error", "select-failed"]},
     ],
 }
+
+_NC = [0, 1, 8, 15, 16]
+PROPS["C10"] = {
+    "patterns": ["./iso7816"],
+    "harness": {"iso7816": ["iso7816/c17.go", "iso7816/sm_ref.go", "iso7816/c10.go"]},
+    "level_text": "The SSA of SecureMessaging.Encode/buildTag85or87/buildTag97/buildTag8E/calcSmLe/generateMac/cryptoPad/cbcCrypt/sscIncrement, CApdu.Encode*, the tlv encoders, ISO9797Method2Pad, ISO9797RetailMacDes (its real key splitting and CBC chaining), CipherForKey/tdesKey/CryptCBC is executed with symbolic keys, symbolic counter (all 2^64 / 2^128 values incl. about-to-wrap), symbolic header, Ne in 0..65536 and symbolic data of each listed length. An independent chip-side implementation (own APDU case parser, strict DO reader [85|87][97]8E, own byte-carry counter, own retail-MAC/CBC over the same idealised block cipher) must authenticate the command and recover exactly header (CLA 0C), data and Ne, with tag 87 iff INS even and DO97 iff Ne>0. Inductive step: from any equal pair of counters one full exchange with a genuine protected response (arbitrary status word, with/without data) is accepted with the chip's status/data and leaves the counters equal - with the first harness this covers exchange histories of any length.",
+    "level_note": "Block ciphers are uninterpreted functions with the mutual-inverse law; AES-CMAC is one uninterpreted function per message length (github.com/aead/cmac is not executed); so the result is: gmrtd's use of the primitives equals the specification's use for all inputs. Data lengths are the listed cases (quick 0,1,7,8,15,16,17; thorough adds 31,32 and 223..248 across the short/extended boundary); commands whose protected data field would exceed 65535 bytes are outside. Trusted: gosym incl. math/big model (SetBytes/Add/Sub/Bytes/FillBytes), z3.",
+    "bounds": "algorithms 3DES and AES-128 (thorough: +AES-192/256); command data lengths as listed; response data lengths 0,1,8,16 (thorough up to 32); all header bytes, Ne, status words, keys and counters symbolic",
+    "outside": "data lengths not listed; AES-CMAC and block cipher internals; the transceiver boundary of DoAPDU (C11)",
+    "assumptions": ["block ciphers are permutations per key (E/D inverse)"],
+    "jobs": [
+        {"func": "verifH_C10_encode", "pkg": "iso7816", "params": {"alg": [0, 1], "nc": _NC}, "params_thorough": {"alg": [0, 1, 2, 3], "nc": _NC + [7, 17, 31, 32, 223, 224, 231, 232, 239, 240, 241, 247, 248]}, "unwind": 80, "expect_reach": ["encoded"]},
+        {"func": "verifH_C10_exchange", "pkg": "iso7816", "params": {"alg": [0, 1], "nc": [0, 8], "nr": [0, 1, 16]}, "params_thorough": {"alg": [0, 1, 2, 3], "nc": [0, 1, 8, 17], "nr": [0, 1, 7, 8, 15, 16, 17, 32]}, "unwind": 80, "expect_reach": ["exchanged"]},
+    ],
+}
+
+PROPS["C03"] = {
+    "patterns": ["./iso7816"],
+    "harness": {"iso7816": ["iso7816/c17.go", "iso7816/sm_ref.go", "iso7816/c10.go", "iso7816/c03.go"]},
+    "level_text": "The SSA of SecureMessaging.Decode/decodeVerifyMAC/generateMacDataForSmRApduTlv/decodeSmRApduData/cbcCrypt/cryptoUnpad/sscIncrement/sscDecrement, ParseRApdu, tlv.Decode and the node encoders is executed on responses assembled from data objects of 16 shapes (87 99 8E, 99 8E, 85 99 8E, reordered, missing 99 / missing 8E, duplicated objects, unknown objects, 1- and 3-byte DO99). Keys, counter, cryptogram (as encryption of an arbitrary plaintext), padding-content indicator, protected and outer status are symbolic and the MAC field is the reference MAC XOR an arbitrary delta. z3 shows: accepted => delta = 0 (MAC over counter+1 ‖ DO85 ‖ DO87 ‖ DO99), a two-byte DO99 equal to the outer status and to the returned status, returned data = unpadded decryption of the authenticated cryptogram with indicator 01, counter advanced by exactly one; rejected => no partial result; responses of 0..2 bytes (unprotected) are errors. The accept direction for genuine responses is the C10 exchange harness.",
+    "level_note": "MAC and ciphers are idealised (uninterpreted, inverse law): 'modified/replayed/cross-session responses are rejected' follows from 'accepted implies the MAC over the expected counter and exactly these objects' under the standard MAC idealisation and is not itself a solver result. Responses are structured (shapes) rather than arbitrary byte strings; arbitrary short byte strings are covered for crashes in C12. Observed leniency (not a violation): unknown extra objects and object order are tolerated because the MAC is recomputed over the canonical encoding of the protected objects only.",
+    "bounds": "3DES and AES-128 (thorough: +AES-192/256); 16 shapes of up to 4 objects; cryptogram of 1 block (thorough: 1-2); all values symbolic",
+    "outside": "responses with more than 4 data objects or longer cryptograms; non-minimal length octets inside responses (covered by tlv canonicalisation, C16)",
+    "assumptions": ["block ciphers are permutations per key (E/D inverse)"],
+    "jobs": [
+        {"func": "verifH_C03_constructive", "pkg": "iso7816", "params": {"alg": [0, 1], "shape": [134, 34, 234, 43, 14, 13, 3, 4, 334, 1134, 534, 64, 74, 314, 124, 214], "blocks": 1}, "params_thorough": {"alg": [0, 1, 2, 3], "blocks": [1, 2]}, "unwind": 80, "expect_reach": ["accepted", "rejected"]},
+        {"func": "verifH_C03_unprotected", "pkg": "iso7816", "params": {"alg": [0, 1], "n": [0, 1, 2]}, "unwind": 80, "expect_reach": ["decoded"]},
+    ],
+}
